@@ -172,8 +172,13 @@ def rule_fmap(run):
                 else:
                     run.violated(kj, 'name field %s: reader %s, writer %s' % (f.name, 'strips and right-justifies' if rj else 'keeps the text',
                                                                            'left-justifies to the field' if wj else 'writes verbatim'), where=w.where(wnode), rule='JUST')
-    run.check(nunit == 10, 'mulgrid :: 10 coordinate fields carry the unit scale', '%d fields are unit-scaled on both sides, 10 expected '
-              '(node x,y; column centre x,y; layer bottom, centre; surface elevation; well x,y,z)' % nunit, rule='UNIT')
+    # (the count is a cross-check of the per-field verdicts above: when a record could not be analysed the shortfall is its fields, not a finding)
+    undecided = any(o.status == 'unknown' and o.rule in ('FMAP', 'UNIT') for o in run.obs)
+    ku10 = 'mulgrid :: 10 coordinate fields carry the unit scale'
+    msg10 = '%d fields are unit-scaled on both sides, 10 expected (node x,y; column centre x,y; layer bottom, centre; surface elevation; well x,y,z)' % nunit
+    if nunit == 10: run.ok(ku10, rule='UNIT')
+    elif undecided: run.unknown(ku10, msg10 + ' - some records were not analysed', rule='UNIT')
+    else: run.violated(ku10, msg10, rule='UNIT')
     # rjust lengths are the convention's
     for sec, attr in (('nodes', 'colname_length'), ('columns', 'colname_length'), ('connections', 'colname_length'),
                       ('layers', 'layername_length'), ('surface', 'colname_length')):
@@ -257,6 +262,30 @@ def rule_header(run):
         if bad: run.violated(key, 'the header value read into %s is never pushed through the %s setter: dependent state '
                              '(name lengths, unit scale, name lists) keeps its old value' % (b, prop), where=rh.where())
         else: run.ok(key, where=rh.where())
+        # the setter is entered with the value the by-name read has already stored in the backing field: whatever it derives
+        # for the section readers (name lengths, unit scale) must be derived on every path, not only when the value changes
+        used = set()
+        for mname, m in cls.methods.items():
+            if mname.startswith('read_') and mname != 'read_header':
+                used |= set(n.attr for n in ast.walk(m.node) if isinstance(n, ast.Attribute) and isinstance(n.ctx, ast.Load) and dotted(n.value) == 'self')
+        def stores(fn):
+            return set(n.attr for n in ast.walk(fn) if isinstance(n, ast.Attribute) and isinstance(n.ctx, ast.Store) and dotted(n.value) == 'self')
+        def derives(st):
+            if isinstance(st, (ast.Assign, ast.AugAssign)):
+                return (stores(st) - set([b])) & used
+            if isinstance(st, ast.Expr) and isinstance(st.value, ast.Call) and dotted(st.value.func).startswith('self.'):
+                callee = cls.methods.get(dotted(st.value.func)[5:])
+                if callee is not None: return stores(callee.node) & used
+            return set()
+        effects = [st for st in ast.walk(setter.node) if isinstance(st, ast.stmt) and derives(st)]
+        for st in effects:
+            k2 = 'mulgrid.%s :: `%s` on every path' % (s, norm(st)[:60])
+            skipped = flow.must_pass(setter.node, lambda n, st=st: n is st)
+            if skipped:
+                run.violated(k2, 'the %s setter can return without running `%s`, which derives %s for the section readers: read_header() '
+                             'calls it with the value already stored in %s, so after a header is read the names are justified to the '
+                             'previous convention' % (prop, norm(st)[:60], sorted(derives(st)), b), where=setter.where(st), robust=True)
+            else: run.ok(k2, sorted(derives(st)), where=setter.where(st))
     # INVTABLE: block order codes
     sb = prog.func(M + 'set_block_order_int')
     fwd = bwd = None
@@ -266,6 +295,13 @@ def rule_header(run):
     for n in walk_no_nested(rh.node):
         if isinstance(n, ast.Assign) and isinstance(n.value, ast.Dict) and norm(n.targets[0]) == 'block_orders':
             bwd = Folder(prog, 'mulgrids').fold(n.value)
+    k3 = 'mulgrid.set_block_order_int :: the written code is refreshed on every normal exit'
+    skipped = flow.must_pass(sb.node, lambda n: isinstance(n, ast.Assign) and norm(n.targets[0]) == 'self._block_order_int')
+    if skipped:
+        run.violated(k3, 'set_block_order_int() can return without storing self._block_order_int: after the block ordering is set '
+                     'to a value on that path (None), the header goes on carrying the code of the previous ordering, which the '
+                     'reader turns back into that ordering', where=sb.where(), robust=True)
+    else: run.ok(k3, where=sb.where())
     key = 'mulgrid :: block order code tables are inverse'
     if isinstance(fwd, dict) and isinstance(bwd, dict):
         inv = dict((v, k) for k, v in fwd.items())
@@ -285,6 +321,41 @@ def rule_header(run):
         if good: run.ok(key, units)
         else: run.violated(key, 'unit table %s does not map "" to 1 and the 5-column "FEET " to 0.3048' % units, where=su.where())
     else: run.unknown(key, 'table not found', where=su.where())
+
+
+def rule_justtest(run):
+    run.rule('JUSTTEST', 'the file stores names stripped and the reader right-justifies them, so names that differ only in justification '
+             'collide on reading: the operations that create names (split, refine, decompose, refine_layers) must continue the '
+             'justification the geometry already uses, and the test they consult must be able to tell the two apart - comparing a '
+             'fixed-width slice with itself re-justified to the same width is always true', floor=1)
+    prog = run.prog
+    cls = prog.cls('mulgrids', 'mulgrid')
+    n = 0
+    for fi in sorted(prog.all_functions(['mulgrids']), key=lambda f: f.qual):
+        for c in walk_no_nested(fi.node):
+            if not (isinstance(c, ast.Compare) and len(c.ops) == 1 and isinstance(c.ops[0], (ast.Eq, ast.NotEq))): continue
+            for a, b in ((c.left, c.comparators[0]), (c.comparators[0], c.left)):
+                if isinstance(b, ast.Call) and isinstance(b.func, ast.Attribute) and b.func.attr in ('rjust', 'ljust', 'center') and b.args and \
+                   isinstance(b.args[0], ast.Constant) and isinstance(b.args[0].value, int):
+                    n += 1
+                    k = b.args[0].value
+                    key = '%s :: justification test `%s`' % (fi.short, norm(c)[:70])
+                    inner = b.func.value
+                    width = None
+                    if isinstance(a, ast.Subscript) and isinstance(a.slice, ast.Slice) and a.slice.step is None:
+                        lo = 0 if a.slice.lower is None else (a.slice.lower.value if isinstance(a.slice.lower, ast.Constant) else None)
+                        hi = a.slice.upper.value if isinstance(a.slice.upper, ast.Constant) else None
+                        if isinstance(lo, int) and isinstance(hi, int) and 0 <= lo <= hi: width = hi - lo
+                    if norm(inner) == norm(a) and width is not None and width >= k:
+                        run.violated(key, '`%s` is a slice of %d characters, so `.%s(%d)` returns it unchanged and the comparison is always %s: a '
+                                     'left-justified geometry is taken for a right-justified one, the operations that add columns and nodes '
+                                     'then create right-justified names next to the left-justified ones ("  a" beside "a  "), and after a '
+                                     'write / read cycle both are "  a"' % (norm(a), width, b.func.attr, k, isinstance(c.ops[0], ast.Eq)),
+                                     where=fi.where(c), robust=True)
+                    elif norm(inner) == norm(a) and width is None:
+                        run.unknown(key, 'length of `%s` not known' % norm(a), where=fi.where(c))
+                    else: run.ok(key, where=fi.where(c))
+    if n == 0: run.unknown('mulgrids :: justification tests', 'no comparison with a re-justified string found', where='mulgrids.py')
 
 
 def rule_topstate(run):
@@ -366,4 +437,5 @@ def check(run):
     run.guarded('BYNAME', rule_byname)
     run.guarded('HEADER', rule_header)
     run.guarded('TOPSTATE', rule_topstate)
+    run.guarded('JUSTTEST', rule_justtest)
     run.guarded('NONETEST', rule_nonetest)
